@@ -611,13 +611,15 @@ class RectGrid(Set):
             return True
         if not isinstance(other, RectGrid):
             return False
+        if self.size == 0:
+            return True
+        if self.ndim != other.ndim:
+            return False
         if not all(self.shape[i] <= other.shape[i] and
                    self.min_pt[i] >= other.min_pt[i] - atol and
                    self.max_pt[i] <= other.max_pt[i] + atol
                    for i in range(self.ndim)):
             return False
-        if self.size == 0:
-            return True
 
         if self.is_uniform and other.is_uniform:
             # For uniform grids, it suffices to show that min_pt, max_pt
